@@ -5,12 +5,16 @@ import (
 	"fmt"
 	"math/rand"
 	"net"
+	"net/http"
 	"path/filepath"
 	"sort"
 	"strconv"
 	"strings"
 	"sync"
 	"time"
+
+	"golang.org/x/net/http2"
+	"golang.org/x/net/http2/h2c"
 
 	"verif/internal/core"
 	"verif/internal/fakes"
@@ -453,9 +457,17 @@ func C03(r *core.Run) {
 		list = append(list, genResp(rng, fmt.Sprintf("s%dbig%d", r.Seed, i), []int{200, 206, 404, 500}[i%4], true))
 	}
 	rng.Shuffle(len(list), func(i, j int) { list[i], list[j] = list[j], list[i] })
+	mu.Lock()
 	for _, s := range list {
 		scripts[s.Tok] = s
 	}
+	mu.Unlock()
+	// second flavour: an h2c backend behind an agent started with --force-http2
+	h2done := make(chan struct{})
+	go func() {
+		defer close(h2done)
+		c03H2(r, md, serverBin, agentBin)
+	}()
 	type res struct {
 		s   *respScript
 		m   *rawhttp.Message
@@ -518,10 +530,167 @@ func C03(r *core.Run) {
 			r.Sample(map[string]interface{}{"script": s, "client_status": rs.m.Status, "client_trailers": rs.m.Trailers})
 		}
 	}
+	<-h2done
 	r.Set("final_statuses_covered", len(statuses))
 	r.Set("fields_added_on_the_path", added)
 	judgeProcs(r, true, server, agent)
 	killAll(agent, server)
 	r.JudgeRaces(core.ParseRaceLogs(filepath.Join(r.WorkDir, "race-")))
 	r.Finish(r.Pick(400, 10000))
+}
+
+// c03H2 is the HTTP/2 flavour: handler-level scripts served by an h2c backend
+// behind an agent started with --force-http2.
+func c03H2(r *core.Run, md *fakes.Metadata, serverBin, agentBin string) {
+	var mu sync.Mutex
+	scripts := map[string]*respScript{}
+	l, err := net.Listen("tcp", "127.0.0.1:0")
+	if err != nil {
+		r.Broken(err.Error())
+		return
+	}
+	defer l.Close()
+	handler := http.HandlerFunc(func(w http.ResponseWriter, req *http.Request) {
+		mu.Lock()
+		s := scripts[req.Header.Get("X-Tok")]
+		mu.Unlock()
+		if s == nil {
+			w.Write([]byte("ok"))
+			return
+		}
+		for i, code := range s.Interim {
+			if code == 103 {
+				w.Header().Set("Link", fmt.Sprintf("</early-%d-%s>; rel=preload", i, s.Tok))
+				w.WriteHeader(103)
+				w.Header().Del("Link")
+			}
+		}
+		ms(s.DelayHdr)
+		for _, f := range s.Fields {
+			w.Header().Add(f.Name, f.Value)
+		}
+		seen := map[string]bool{}
+		for _, t := range s.Declared {
+			if !seen[t.Name] {
+				seen[t.Name] = true
+				w.Header().Add("Trailer", t.Name)
+			}
+		}
+		w.WriteHeader(s.Status)
+		if req.Method == "HEAD" || s.Status == 204 || s.Status == 304 {
+			return
+		}
+		ms(s.DelayBody)
+		b := s.body
+		if s.OneByte && len(b) > 1 {
+			w.Write(b[:1])
+			if fl, ok := w.(http.Flusher); ok {
+				fl.Flush()
+			}
+			b = b[1:]
+			ms(s.DelayRest)
+		}
+		w.Write(b)
+		ms(s.DelayTrl)
+		for _, t := range s.Declared {
+			w.Header().Add(t.Name, t.Value)
+		}
+		for _, t := range s.Undecl {
+			w.Header().Add(http.TrailerPrefix+t.Name, t.Value)
+		}
+	})
+	srv := &http.Server{Handler: h2c.NewHandler(handler, &http2.Server{})}
+	go srv.Serve(l)
+	defer srv.Close()
+	server, addr, err := startServer(r, serverBin, "server-h2")
+	if err != nil {
+		r.Broken(err.Error())
+		return
+	}
+	defer server.Kill()
+	agent, err := startAgent(r, agentBin, "agent-h2", md, "http://"+addr+"/", l.Addr().String(), "bh2", "--force-http2=true")
+	if err != nil {
+		r.Broken(err.Error())
+		return
+	}
+	defer agent.Kill()
+	if err := waitReady(addr, agent, server); err != nil {
+		r.Broken("h2 flavour: " + err.Error())
+		return
+	}
+	rng := r.Rand("c03h2")
+	n := r.Pick(150, 4000)
+	var list []*respScript
+	for i := 0; i < n; i++ {
+		st := 200 + rng.Intn(400)
+		s := genResp(rng, fmt.Sprintf("s%dh2n%d", r.Seed, i), st, false)
+		s.Hop = nil        // hop-by-hop fields do not exist in HTTP/2
+		s.Framing = "h2"   // framing is not a dimension here
+		if s.Method == "HEAD" {
+			s.BodyLen, s.body = 0, nil
+		}
+		var in []int
+		for _, c := range s.Interim {
+			if c == 103 {
+				in = append(in, c)
+			}
+		}
+		s.Interim = in
+		// canonical names: the h2 layer lower-cases field names anyway
+		s.Class = "h2|" + s.Class
+		list = append(list, s)
+		scripts[s.Tok] = s
+	}
+	var wg sync.WaitGroup
+	ch := make(chan *respScript)
+	type res struct {
+		s   *respScript
+		m   *rawhttp.Message
+		err error
+	}
+	results := make(chan res, len(list))
+	for wkr := 0; wkr < 6; wkr++ {
+		wg.Add(1)
+		go func() {
+			defer wg.Done()
+			cl := rawhttp.NewClient(addr, 60*time.Second)
+			defer cl.Close()
+			for s := range ch {
+				var w rawhttp.Builder
+				w.Line(s.Method + " /c03h2/" + s.Tok + " HTTP/1.1").Field("Host", "c03.example").Field("X-Tok", s.Tok).Field("Accept-Encoding", "identity")
+				if s.Method == "POST" {
+					w.Field("Content-Length", "3").End()
+					w.WriteString("abc")
+				} else {
+					w.End()
+				}
+				m, err := cl.Do(w.Bytes(), s.Method)
+				results <- res{s, m, err}
+			}
+		}()
+	}
+	for _, s := range list {
+		ch <- s
+	}
+	close(ch)
+	wg.Wait()
+	close(results)
+	for rs := range results {
+		s := rs.s
+		r.Case(s.Class)
+		if rs.m == nil {
+			r.Violate("C03:h2:no-response", fmt.Sprintf("client got no response for %s status %d: %v", s.Tok, s.Status, rs.err), s, nil)
+			continue
+		}
+		kind, bad := compareResponse(s, rs.m)
+		if rs.err != nil && kind == "" {
+			kind, bad = "response-unparsable", []string{rs.err.Error()}
+		}
+		if kind != "" {
+			r.Violate("C03:h2:"+kind, fmt.Sprintf("h2c backend: status %d %s body=%d declared=%d undeclared=%d interim=%v: %s", s.Status, s.Method, s.BodyLen, len(s.Declared), len(s.Undecl), s.Interim, strings.Join(bad, "; ")), s,
+				map[string]interface{}{"client_status": rs.m.Status, "client_fields": rs.m.Fields, "client_trailers": rs.m.Trailers, "client_body_len": len(rs.m.Body)})
+		}
+	}
+	r.Add("h2_backend_responses", len(list))
+	judgeProcs(r, true, server, agent)
 }
